@@ -187,21 +187,33 @@ def source_mutants(pid):
         os.makedirs(sc + '/ev')
         for m in sel:
             path = os.path.join(sc, 'repo', m['file'])
+            bp = os.path.join(VERIF, 'selftest', 'refactors', m['base'] + '.diff') if m.get('base') else None
+            if bp:
+                # the mutant breaks independently REFACTORED code: apply the behaviour-preserving refactoring first
+                pr = subprocess.run(['patch', '-p1', '-s', '-i', bp], cwd=sc + '/repo', stdin=subprocess.DEVNULL, stdout=subprocess.PIPE, stderr=subprocess.STDOUT)
+                if pr.returncode:
+                    subprocess.run(['rsync', '-a', '--delete', '--exclude', '/target', '--exclude', '/.git', '--exclude', 'test_snapshots', repo.rstrip('/') + '/', sc + '/repo/'])
+                    res.append(dict(id=m['id'], status='SKIP(base refactoring does not apply to this tree)'))
+                    continue
             try:
-                src = open(path).read()
-            except OSError:
-                res.append(dict(id=m['id'], status='SKIP(file missing)'))
-                continue
-            if src.count(m['find']) != 1:
-                res.append(dict(id=m['id'], status='SKIP(patch does not apply to this tree)'))
-                continue
-            open(path, 'w').write(src.replace(m['find'], m['replace']))
-            try:
-                env = dict(os.environ, VERIF_REPO=os.path.join(sc, 'repo'), VERIF_EVIDENCE_DIR=os.path.join(sc, 'ev'), VERIF_TIER='quick')
-                r = subprocess.run([os.path.join(VERIF, 'check'), pid, '--tier', 'quick'], cwd=VERIF, stdout=subprocess.PIPE,
-                                   stderr=subprocess.STDOUT, text=True, env=env)
+                try:
+                    src = open(path).read()
+                except OSError:
+                    res.append(dict(id=m['id'], status='SKIP(file missing)'))
+                    continue
+                if src.count(m['find']) != 1:
+                    res.append(dict(id=m['id'], status='SKIP(patch does not apply to this tree)'))
+                    continue
+                open(path, 'w').write(src.replace(m['find'], m['replace']))
+                try:
+                    env = dict(os.environ, VERIF_REPO=os.path.join(sc, 'repo'), VERIF_EVIDENCE_DIR=os.path.join(sc, 'ev'), VERIF_TIER='quick')
+                    r = subprocess.run([os.path.join(VERIF, 'check'), pid, '--tier', 'quick'], cwd=VERIF, stdout=subprocess.PIPE,
+                                       stderr=subprocess.STDOUT, text=True, env=env)
+                finally:
+                    open(path, 'w').write(src)
             finally:
-                open(path, 'w').write(src)
+                if bp:
+                    subprocess.run(['patch', '-R', '-p1', '-s', '-i', bp], cwd=sc + '/repo', stdin=subprocess.DEVNULL, stdout=subprocess.PIPE, stderr=subprocess.STDOUT)
             rules = sorted(set(l.split('rule=')[1].split()[0] for l in r.stdout.splitlines() if l.strip().startswith('rule=')))
             if r.returncode == 2:
                 st = 'INFRA(mutant does not compile on this tree)'
